@@ -88,10 +88,14 @@ fn find_and_play_best_move(
     // keep looking until we are out of time
     // also add a guard to ensure we at least get a move from the search thread
     while !out_of_time(start, time_to_move_ms) || best_move.is_none() {
-        if let Ok(b) = rx.try_recv() {
-            best_move = Some(b);
-        } else {
-            thread::sleep(Duration::from_millis(1));
+        match rx.try_recv() {
+            Ok(b) => best_move = Some(b),
+            Err(mpsc::TryRecvError::Disconnected) if best_move.is_none() => {
+                // the search ended without sending anything, there is no legal move to play (mate or stalemate)
+                send_to_gui("bestmove 0000");
+                return board.clone();
+            }
+            Err(_) => thread::sleep(Duration::from_millis(1)),
         }
     }
     let board = best_move.unwrap();
